@@ -138,7 +138,7 @@ def run(ctx):
     lines = [b"k%d" % (i % 40) for i in range(300)]
     data = b"".join(l + b"\n" for l in lines)
     for launcher in ([], [sys.executable, decoy]):
-        for code in (0, 3, 42):
+        for code in (0, 3, 42, 129, 137, 143, 147, 192, 255):      # codes above 128 are exit codes like any other, not signals
             argv = launcher + [ctx.bin("cache"), sys.executable, child, "afterall", "exit", str(code)]
             st, out, err = pvlib.run_tool(argv, data, env=pvlib.san_env(), timeout=30)
             ctx.count("cache-exit-status", 1, [(bool(launcher), code)])
@@ -149,6 +149,16 @@ def run(ctx):
                     summary=f"cache{' started with an unrelated terminated child' if launcher else ''}: the captive child answered every line and exited {code}; "
                             f"cache exited {st}, output {'equal' if out == data else 'differs'}")
                 return
+
+    # the answer store: cache keeps every distinct answer in a util::Pool, whose pages double from 32 bytes; "any input" includes more
+    # than 2 GiB of distinct answers, i.e. pages 26 and 27 (2 and 4 GiB).  The pool is driven in-process without touching the memory.
+    for k in (25, 26, 27):
+        x = pvlib.run_lines(ctx.impl(), [f"pool.pages {k}"], env=pvlib.san_env(), timeout=300)[0]
+        ctx.count("pool.pages", 1, [k])
+        if not x.startswith("ok "):
+            pvlib.report_violation(ctx, f"pool-pages:{k}", {"ops": [f"pool.pages {k}"], "impl": x[:300]},
+                                   summary=f"util::Pool (cache's answer store) asked for pages 0..{k} (32*2^j bytes each, {(64 << k) - 32} bytes in all): {x[:160]}")
+            break
 
 
 def replay(ctx, rp):
